@@ -1,0 +1,24 @@
+//! Read-only verification hooks (feature `verif-hooks`).
+use super::AdaptiveCache;
+use crate::lru::RawLRU;
+use crate::DefaultEvictCallback;
+
+impl<K, V, RH, REH, FH, FEH> AdaptiveCache<K, V, RH, REH, FH, FEH> {
+    /// The recent, recent-evict, frequent and frequent-evict lists.
+    #[allow(clippy::type_complexity)]
+    pub fn verif_lists(
+        &self,
+    ) -> (
+        &RawLRU<K, V, DefaultEvictCallback, RH>,
+        &RawLRU<K, V, DefaultEvictCallback, REH>,
+        &RawLRU<K, V, DefaultEvictCallback, FH>,
+        &RawLRU<K, V, DefaultEvictCallback, FEH>,
+    ) {
+        (
+            &self.recent,
+            &self.recent_evict,
+            &self.frequent,
+            &self.frequent_evict,
+        )
+    }
+}
